@@ -25,7 +25,7 @@ ASSUMPTIONS = [
     "a transform exception that the by-hand run reproduces at the same row is attributed to the filter (C09), not the adapter",
 ]
 
-N = {"quick": 40, "thorough": 900}
+N = {"quick": 30, "thorough": 900}
 
 
 def plan(tier, seed):
